@@ -230,5 +230,94 @@ func TestVerifC17(t *testing.T) {
 			rep.Sample(map[string]interface{}{"op": op, "sql": sqls, "table_after": after, "errors": e})
 		}
 	}
+	// ---- the ATTACH route: switch query_only off on the pooled read-only connection, then write to the
+	// node's OWN database file through an ATTACHed alias (mode=ro does not cover attached databases).
+	// The pragma guard (C15) must refuse every spelling; then query_only stays on and the write is refused.
+	pragmaOff := []string{"PRAGMA query_only=0", "PRAGMA query_only = false", "pragma query_only(0)", "PRAGMA main.query_only=OFF",
+		"PRAGMA\tquery_only=0", "PRAGMA/**/query_only=false", "pragma[query_only]=0", "PRAGMA \"query_only\"=0", "PRAGMA\nquery_only = no",
+		"EXPLAIN PRAGMA query_only=0", "PRAGMA /* x */ main . query_only = 0"}
+	dataVersion := func() string {
+		rows, err := s.db.QueryStringStmt("PRAGMA data_version")
+		if err != nil || len(rows) != 1 || rows[0].Error != "" || len(rows[0].Values) != 1 {
+			t.Fatalf("data_version: %v %v", err, rows)
+		}
+		return fmt.Sprint(rows[0].Values[0].Parameters[0].GetI())
+	}
+	runQ := func(endpoint, lv string, sqls []string) (rejected bool, errs []string) {
+		ctx, cancel := context.WithTimeout(context.Background(), 30*time.Second)
+		defer cancel()
+		if endpoint == "query" {
+			qr := queryRequestFromStrings(sqls, false, false, false)
+			qr.Level = c17sLevels[lv]
+			rows, _, _, err := s.Query(ctx, qr)
+			if err != nil {
+				return true, nil
+			}
+			for _, row := range rows {
+				errs = append(errs, c17sBit(row.Error != ""))
+			}
+			return false, errs
+		}
+		res, _, _, err := s.Request(ctx, executeQueryRequestFromStrings(sqls, c17sLevels[lv], false, false, false))
+		if err != nil {
+			return true, nil
+		}
+		for _, x := range res {
+			errs = append(errs, c17sBit(x.GetError() != "" || (x.GetQ() != nil && x.GetQ().Error != "")))
+		}
+		return false, errs
+	}
+	var gops, gimpl []string
+	attachN := 0
+	for i := 0; i < vfScale(40, 600); i++ {
+		endpoint := []string{"query", "query", "request"}[r.Intn(3)]
+		lv := []string{"none", "weak", "strong", "linearizable"}[r.Intn(4)]
+		if endpoint == "request" {
+			lv = []string{"none", "weak"}[r.Intn(2)] // the unified endpoint's read-only (local) path
+		}
+		pr := pragmaOff[(i+r.Intn(3))%len(pragmaOff)]
+		before, dvBefore := c17sContent(s), dataVersion()
+		// 1. try to switch query_only off (alone, behind a read, or before one)
+		var sqls []string
+		var abs string
+		switch r.Intn(3) {
+		case 0:
+			sqls, abs = []string{pr}, "p"
+		case 1:
+			sqls, abs = []string{"SELECT 1; " + pr}, "r,p"
+		default:
+			sqls, abs = []string{pr, "SELECT 1"}, "p|r"
+		}
+		rej, errs := runQ(endpoint, lv, sqls)
+		out := before + " " + map[bool]string{true: "-", false: strings.Join(errs, "")}[rej || len(errs) == 0]
+		if rej {
+			out += " rejected"
+		} else {
+			rep.Fail("query-only-switch-accepted:"+endpoint, fmt.Sprintf("%s at level %s accepted %q: query_only can be switched off on the pooled read-only connection", endpoint, lv, sqls), map[string]interface{}{"sql": sqls, "level": lv})
+		}
+		gops = append(gops, "gquery "+lv+" "+abs)
+		gimpl = append(gimpl, out)
+		// 2. ATTACH the node's own file and write through the alias
+		attachN++
+		alias := fmt.Sprintf("w%d", attachN)
+		_, aerrs := runQ(endpoint, lv, []string{fmt.Sprintf("ATTACH DATABASE '%s' AS %s", s.dbPath, alias)})
+		_, werrs := runQ(endpoint, lv, []string{fmt.Sprintf("INSERT INTO %s.t(v) VALUES('k%d')", alias, 700000+attachN)})
+		runQ(endpoint, lv, []string{"DETACH DATABASE " + alias})
+		after, dvAfter := c17sContent(s), dataVersion()
+		rep.Count("attach-route:" + endpoint + ":" + lv)
+		rep.Case(fmt.Sprintf("attach-route %s %s %q", endpoint, lv, sqls), true)
+		if after != before || dvAfter != dvBefore {
+			rep.Fail("attach-route-changed-database:"+endpoint, fmt.Sprintf("%s at level %s: after %q, ATTACH of the node's own file and INSERT through the alias the table went from %s to %s (data_version %s -> %s; attach errs %v, insert errs %v)", endpoint, lv, sqls, before, after, dvBefore, dvAfter, aerrs, werrs),
+				map[string]interface{}{"sql": sqls, "level": lv, "endpoint": endpoint})
+		}
+		we := "1"
+		if len(werrs) == 1 {
+			we = werrs[0]
+		}
+		gops = append(gops, fmt.Sprintf("gquery %s r,a%d", lv, 700000+attachN))
+		gimpl = append(gimpl, after+" "+we)
+	}
 	rep.vfCompare("routing", ops, impl, nil)
+	// the guarded path continues from the same database content
+	rep.vfCompare("routing", append(append([]string{}, ops...), gops...), append(append([]string{}, impl...), gimpl...), nil)
 }
